@@ -134,6 +134,30 @@ def run(chk):
                               'own class: %s' % (code.name, r1, r2, r3), {'ldap_result_code': code.name}, None, True)
                 break
         extra.append('ldap')
+        # conformant ExtendedResponse encodings written here from RFC 4511 4.12 / 4.1.9 (IMPLICIT TAGS): resultCode, matchedDN,
+        # diagnosticMessage, then optionally referral [3] (a SEQUENCE OF LDAPURL, for resultCode referral(10)) and
+        # responseName [10]; every result code the library knows, with and without the optional parts
+        def tlv(tag, body):
+            assert len(body) < 128
+            return bytes([tag, len(body)]) + body
+        nl = 0
+        for code in LDAPResultCode:
+            for refs in ([], [b'ldap://a.example/'], [b'ldap://a.example/', b'ldaps://b.example:636/dc=x']):
+                if refs and code.value != 10:
+                    continue
+                for name in (b'', b'1.3.6.1.4.1.1466.20037'):
+                    body = tlv(0x0a, bytes([code.value])) + tlv(0x04, b'') + tlv(0x04, b'')
+                    if refs:
+                        body += tlv(0xa3, b''.join(tlv(0x04, r) for r in refs))
+                    if name:
+                        body += tlv(0x8a, name)
+                    wire = tlv(0x30, tlv(0x02, b'\x01') + tlv(0x78, body))
+                    r = impl.outcome(lambda: LDAPExtendedResponseStartTLS.parse_exact_size(wire).result_code.name)
+                    extra.append('ldapresp')
+                    if r != 'OK ' + code.name and nl < 3:
+                        nl += 1
+                        chk.violation('a conformant LDAP ExtendedResponse (resultCode %s, %d referral URIs, responseName %s) parses to %s' % (
+                            code.name, len(refs), 'present' if name else 'absent', r), {'wire': wire.hex(), 'ldap_result_code': code.name, 'impl': r}, None, True)
     except ImportError:
         pass
     chk.coverage['evaluations'] = len(lines) + len(extra)
